@@ -15,8 +15,9 @@
 import collections
 import copy
 import json
+from concurrent.futures import ThreadPoolExecutor
 
-from harness.core import (MachineryError, model_check, read_events, require, run_driver, seed, selftest_trace,
+from harness.core import (MachineryError, model_check, read_events, require, run_driver, run_drivers_parallel, seed,
                           spec_mutant, validate_trace, work_dir, write_events)
 
 TSPEC = "C18_AletheTrace"
@@ -76,9 +77,45 @@ def _corrupted(evs):
     return out
 
 
-def _judge(rep, name, path, wd, nchunks):
+def _corrupted_proofs(pevs):
+    """Self-test for whole proofs: an accepted refutation loses one of its assumed formulas (the rest is satisfiable)."""
+    out = []
+    for e in pevs:
+        if e["outcome"] == "accepted" and e["mut"] in ("verit_and/correct", "verit_not_or/correct", "verit_implies/correct") and len(e["assumed"]) >= 2:
+            for drop in range(len(e["assumed"])):
+                c = copy.deepcopy(e)
+                del c["assumed"][drop]
+                c["result"]["h"] = []
+                c["tid"] = SELF_BASE + 1000 + len(out)
+                out.append((c, "Refutation"))
+            if len(out) >= 4:
+                break
+    return out
+
+
+def _slim(e):
+    """What the T spec reads of an event: a refused step has no result to judge (its verdict is the empty set)."""
+    keep = ("tid", "key", "rule", "mut", "outcome") if e["outcome"] != "accepted" else \
+           ("tid", "key", "rule", "mut", "outcome", "prems", "result", "assumed")
+    return {k: e[k] for k in keep if k in e}
+
+
+def _judge(rep, name, path, wd, nchunks, corrupted=()):
+    """Validate one event file (plus corrupted copies of its events = binding self-test) in ONE pass of the T spec."""
     evs = read_events(path)
-    v = validate_trace(TSPEC, path, wd=wd / ("tv_" + name), nchunks=nchunks)
+    allp = wd / (name + "_all.ndjson")
+    write_events(allp, [_slim(e) for e in evs] + [_slim(c) for c, _ in corrupted])
+    v = validate_trace(TSPEC, allp, wd=wd / ("tv_" + name), nchunks=nchunks)
+    if corrupted:
+        flagged = {f["tid"]: set(f["fail"]) for f in v["fails"]}
+        missing = [c["tid"] for c, clause in corrupted if clause not in flagged.get(c["tid"], ())]
+        require(not missing, "self-test: %s accepted corrupted events %s" % (TSPEC, missing[:5]))
+        rep.notes.setdefault("selftests", []).append({"spec": TSPEC, "corrupted_events": len(corrupted),
+                                                      "all_rejected_with": sorted({c for _, c in corrupted})})
+        self_tids = {c["tid"] for c, _ in corrupted}
+        v = dict(v, fails=[f for f in v["fails"] if f["tid"] not in self_tids],
+                 nontrivial=[t for t in v["nontrivial"] if t not in self_tids],
+                 divergences=[t for t in v["divergences"] if t not in self_tids], consumed=v["consumed"] - len(corrupted))
     pruned, counts = _prune(v, evs)
     rep.add_trace_result(name, evs, pruned)
     rep.notes.setdefault("failing_events_per_key", {}).update(counts)
@@ -104,35 +141,47 @@ def run(rep, tier):
                        "context rules (refl, bind, let, onepoint, sko_ex, sko_forall) are recorded but not judged",
                        "premises are sequents: the result sequent must hold wherever all premise sequents hold",
                        "TLC/SANY, the structural codec harness/codec.py, CPython"]
-    vec = wd / "vectors.ndjson"
-    r = model_check("C18_Alethe", "C18_Alethe_%s.cfg" % sfx, wd=wd / "mc", workers=1 if quick else 2, env={"VECTOR_FILE": vec}, timeout=7200)
+    vec, prf = wd / "vectors.ndjson", wd / "proofs.ndjson"
+    menv = {"VECTOR_FILE": wd / "mutant_vectors.ndjson", "PROOF_FILE": wd / "mutant_proofs.ndjson"}
+    # oracle non-vacuity: (1) a not_and schema that forgets a literal is unsound, (2) strict < read as <=, (3) hypotheses ignored
+    mutants = [("not_and_drops_a_literal",
+                [("C18_Rules.tla", 'I("verit_not_and", <<PS(Neg(AndN(fs)))>>, Neg1(fs))', 'I("verit_not_and", <<PS(Neg(AndN(fs)))>>, Tail(Neg1(fs)))')],
+                ["RefSound", "DbSound"])]
+    if not quick:
+        mutants += [("strict_less_read_as_less_eq",
+                     [("C18_Sem.tla", 'ELSE IF IsApp2(t, "less") THEN RLt(', 'ELSE IF IsApp2(t, "less") THEN RLe(')],
+                     ["RefSound", "DbSound", "NearMissRefuted"]),
+                    ("hypotheses_ignored",
+                     [("C18_Sem.tla", "SeqHolds(sq, va, ta) == (\\A k \\in 1..Len(sq.h) : EvalX(sq.h[k], va, <<>>, ta)) => EvalX(sq.c, va, <<>>, ta)",
+                       "SeqHolds(sq, va, ta) == EvalX(sq.c, va, <<>>, ta)")],
+                     ["NearMissRefuted", "RefSound"])]
+    with ThreadPoolExecutor(max_workers=2) as ex:
+        f1 = ex.submit(model_check, "C18_Alethe", "C18_Alethe_%s.cfg" % sfx, wd=wd / "mc", workers=1 if quick else 2,
+                       env={"VECTOR_FILE": vec, "PROOF_FILE": prf}, timeout=7200)
+        f2 = ex.submit(lambda: [spec_mutant(rep, n, "C18_Alethe", "C18_Alethe_tiny.cfg", ed, exp, wd=wd, workers=1, env=menv)
+                                for n, ed, exp in mutants])
+        r = f1.result()
+        f2.result()
     rep.add_mc("C18_Alethe", r, sfx)
     if r.violated:
         rep.design_violation("C18_Alethe", r)
         return
-    require(vec.exists(), "C18_Alethe did not emit vectors")
+    require(vec.exists() and prf.exists(), "C18_Alethe did not emit vectors")
     rep.exhaustive = True
     rep.notes["vectors"] = sum(1 for _ in open(vec))
-    # oracle non-vacuity: a not_and schema that forgets the first literal is unsound, and TLC must say so
-    spec_mutant(rep, "not_and_drops_a_literal", "C18_Alethe", "C18_Alethe_tiny.cfg",
-                [("C18_Rules.tla", 'I("verit_not_and", <<PS(Neg(AndN(fs)))>>, Neg1(fs))', 'I("verit_not_and", <<PS(Neg(AndN(fs)))>>, Tail(Neg1(fs)))')],
-                ["RefSound", "DbSound"], wd=wd, workers=1, env={"VECTOR_FILE": wd / "mutant_vectors.ndjson"})
-    if not quick:
-        spec_mutant(rep, "la_generic_strict_as_weak", "C18_Alethe", "C18_Alethe_tiny.cfg",
-                    [("C18_Sem.tla", 'ELSE IF IsApp2(t, "less") THEN RLt(', 'ELSE IF IsApp2(t, "less") THEN RLe(')],
-                    ["RefSound", "DbSound", "NearMissRefuted"], wd=wd, workers=1, env={"VECTOR_FILE": wd / "mutant_vectors.ndjson"})
-        spec_mutant(rep, "hyps_ignored", "C18_Alethe", "C18_Alethe_tiny.cfg",
-                    [("C18_Sem.tla", "SeqHolds(sq, va, ta) == (\\A k \\in 1..Len(sq.h) : EvalX(sq.h[k], va, <<>>, ta)) => EvalX(sq.c, va, <<>>, ta)",
-                      "SeqHolds(sq, va, ta) == EvalX(sq.c, va, <<>>, ta)")],
-                    ["NearMissRefuted", "RefSound"], wd=wd, workers=1, env={"VECTOR_FILE": wd / "mutant_vectors.ndjson"})
-    # spec -> code
-    ev1 = wd / "replay.ndjson"
-    run_driver("c18", ["replay", vec, ev1])
-    evs, v = _judge(rep, "replay", ev1, wd, 2 if quick else 4)
-    bad = _corrupted(evs)
+    rep.notes["proof_vectors"] = sum(1 for _ in open(prf))
+    # spec -> code -> spec
+    ev1, ev2 = wd / "replay.ndjson", wd / "proofs_ev.ndjson"
+    run_drivers_parallel([("c18", ["replay", vec, ev1], None), ("c18", ["proofs", prf, ev2], None)])
+    bad = _corrupted(read_events(ev1))
     require(len(bad) >= 5 and {c for _, c in bad} == {"Entailed", "HypsSubset"}, "C18: self-test events could not be built")
-    for clause in ("Entailed", "HypsSubset"):
-        selftest_trace(rep, TSPEC, [c for c, k in bad if k == clause], clause, wd=wd / ("st_" + clause))
+    with ThreadPoolExecutor(max_workers=2) as ex:
+        f1 = ex.submit(_judge, rep, "replay", ev1, wd, 1 if quick else 3, bad)
+        f2 = ex.submit(_judge, rep, "proofs", ev2, wd, 1, _corrupted_proofs(read_events(ev2)))
+        evs, v = f1.result()
+        pevs, pv = f2.result()
+    rep.notes["accepted_proofs_ending_in_empty_clause"] = sum(1 for e in pevs if e["outcome"] == "accepted")
+    require(rep.notes["traces"]["proofs"]["nontrivial"] >= (100 if quick else 300), "C18: too few whole proofs examined (vacuity guard)")
     acc = collections.Counter(e["rule"] for e in evs if e["outcome"] == "accepted")
     rep.notes["rules_with_accepted_steps"] = len(acc)
     rep.notes["accepted_near_misses"] = sum(1 for e in evs if e["outcome"] == "accepted" and e["mut"] != "correct")
